@@ -195,9 +195,23 @@ def value_eq(eng, a, b):
                 return False
         return acc
     if ta is MapV:
+        # keys are pairwise distinct inside each map: equal iff same size and every entry of a has a twin in b
         if len(a.f) != len(b.f):
             return False
-        raise Unsupported('HashMap equality')
+        acc = True
+        for ka, va in a.f:
+            hit = False
+            for kb, vb in b.f:
+                e = value_eq(eng, ka, kb)
+                if e is False:
+                    continue
+                hit = bool_or(hit, bool_and(e, value_eq(eng, va, vb)))
+                if hit is True:
+                    break
+            acc = bool_and(acc, hit)
+            if acc is False:
+                return False
+        return acc
     raise Unsupported('value_eq of %r' % (a,))
 
 
